@@ -251,6 +251,10 @@ def c04_jobs(tier):
         des("growth-p2", "notif", 2, dl, procs=2, prios="0,0", budget=3, ops=C04_OPS, preload=7,
             script0="hold1,hold1", script1="hold2,hold1"),
     ]
+    # a condition waiter whose timer (standard and application-defined signal) expires in the instant of the signal
+    jobs.append(des("condition-timer-p3", "notif", b, dl, procs=3, prios="1,0,0", budget=3, cond=1,
+                    ops="hold0,hold1,tadd1,tadd1u,tadd2u,cwait0,cwait1,csig,setx1,setx2,int1,exit",
+                    script0="hold1,setx1,csig", script1="tadd1u,cwait0,hold1", script2="tadd1,cwait0,hold1"))
     # several processes waiting for the same event, which is cancelled / executes / is rescheduled by a third
     jobs.append(des("event-waiters-p3", "notif", b, dl, procs=3, prios="0,0,1", budget=3,
                     ops="hold0,hold1,tadd1,evsched1,evsched2,waite0,waite1,evcancel0,evcancel1,int1,int2,stop1,exit",
@@ -525,6 +529,10 @@ def c13_jobs(tier):
             subscribe="res", script0="racq0,hold1,rrel0", script1="cwait3,hold1", script2="cwait3,hold1", script3="cwait0,hold1"),
         des("forwarded-subscribe", "condition", b, dl, procs=3, prios="0,1,2", budget=4, cond=1, res=1, ops=ops,
             subscribe="csub", script0="racq0,hold1,rrel0", script1="cwait3,hold1", script2="cwait3,hold1"),
+        # waiters whose timers (standard and application-defined signals) expire in the instant of the signal
+        des("timer-race", "condition", b, dl, procs=3, prios="1,0,0", budget=3, cond=1,
+            ops="cwait0,cwait1,csig,setx0,setx1,setx2,hold0,hold1,tadd1,tadd1u,int1,exit",
+            script0="hold1,setx1,csig", script1="tadd1u,cwait0,hold1", script2="tadd1,cwait0,hold1"),
         # subscriptions made and withdrawn while the simulation runs
         des("subscribe-dynamic", "condition", b, dl, procs=3, prios="0,1,2", budget=5, cond=1, res=1,
             ops="csub,cunsub,cwait3,cwait0,csig,setx1,racq0,rrel0,hold0,hold1,tadd1,int1,exit",
@@ -569,6 +577,20 @@ def c14_jobs(tier):
         des("priorityqueue", "history", b, dl, procs=3, prios="0,1,1", budget=4, pq=2,
             ops="recon,recoff,pqput0,pqput1,pqget,pqcancel,hold0,hold1,tadd1,int0,int1,stop0,exit",
             script0="recon,pqput0,pqput1,pqcancel", script1="hold1,pqget,hold1,recoff", script2="hold1,pqget"),
+        # histories of more than 1024 / 2048 samples (the time series' growth thresholds): scripts repeat, nothing is chosen
+        des("resource-long", "history", 0, dl, procs=3, prios="0,0,0", budget="1,2400,2400", res=1, cycle=1, maxevents=40000,
+            ops="recon", script0="recon", script1="racq0,hold1,rrel0,hold2", script2="hold1,racq0,hold2,rrel0"),
+        # ... every sample with a duration of its own (one process), recording started at three different offsets
+        des("resource-long-solo", "history", 0, dl, procs=2, prios="0,0", budget="1,4400", res=1, cycle=1, maxevents=40000,
+            ops="recon", script0="recon", script1="racq0,hold1,rrel0,hold2"),
+        des("resource-long-solo-late", "history", 0, dl, procs=2, prios="0,0", budget="2,4400", res=1, cycle=1, maxevents=40000,
+            ops="recon,hold1", script0="hold1,recon", script1="racq0,hold1,rrel0,hold2"),
+        des("pool-long-solo", "history", 0, dl, procs=2, prios="0,0", budget="1,4400", pool=3, cycle=1, maxevents=40000,
+            ops="recon", script0="recon", script1="pacq2,hold1,pacq1,hold2,prel3,hold1"),
+        des("buffer-long", "history", 0, dl, procs=3, prios="0,0,0", budget="1,2400,2400", buf=3, cycle=1, maxevents=40000,
+            ops="recon", script0="recon", script1="bput2,hold1,bput1,hold2", script2="hold1,bget1,hold1,bget2"),
+        des("objectqueue-long", "history", 0, dl, procs=3, prios="0,0,0", budget="1,2400,2400", oq=2, cycle=1, maxevents=40000,
+            ops="recon", script0="recon", script1="oqput0,hold1,oqput0,hold2", script2="hold1,oqget,hold2,oqget"),
         # the library's own arithmetic on histories under the experiment's floating-point trap mask
         des("resource-fptrap", "history", 2, dl, procs=3, prios="0,1,2", budget=4, res=1, fptrap=1,
             ops="recon,recoff,racq0,rrel0,rpre0,hold0,hold1,int0,stop0,exit",
@@ -811,6 +833,7 @@ def c15_jobs(tier):
     jobs = [j("identity", mode="identity"), j("identity-O2", "rel", mode="identity"),
             j("history", mode="history", hist=2 if tier == "quick" else 3),
             j("history-O2", "rel", mode="history", hist=2 if tier == "quick" else 3),
+            j("experiment-workers", mode="experiment"), j("experiment-workers-O2", "rel", mode="experiment"),
             j("threads-2", bmax=2, mode="threads", nthreads=2),
             j("threads-3", bmax=1 if tier == "quick" else 2, mode="threads", nthreads=3),
             j("tsan-free-running", "tsan", workers=1, mode="free")]
@@ -887,11 +910,13 @@ def c16_jobs(tier):
     if tier == "quick":
         return [j("tables", mode="tables"), j("lattice-16", "rel", mode="lattice", lbits=16), j("seq-K2", mode="seq", K=2),
                 j("seq-K2-O2", "rel", mode="seq", K=2), j("aliasvec-5", mode="aliasvec", maxn=5),
+                j("zigslow", "rel", mode="zigslow", tolppm=12000),
                 # the same under the floating-point trap mask that cimba_run_experiment() gives its worker threads
                 j("lattice-12-fptrap", "rel", mode="lattice", lbits=12, fptrap=1),
                 j("seq-K2-O2-fptrap", "rel", mode="seq", K=2, fptrap=1)]
     return [j("tables", mode="tables"), j("tables-O2", "rel", mode="tables"), j("lattice-20", "rel", mode="lattice", lbits=20),
             j("seq-K3", "rel", mode="seq", K=3), j("seq-K2-asan", mode="seq", K=2),
+            j("zigslow-fine", "rel", mode="zigslow", m1=128, m2=64, m3=32, tolppm=6000),
             j("aliasvec-6", mode="aliasvec", maxn=6), j("aliasvec-6-fptrap", "rel", mode="aliasvec", maxn=6, fptrap=1),
             j("lattice-16-fptrap", "rel", mode="lattice", lbits=16, fptrap=1),
             j("seq-K3-fptrap", "rel", mode="seq", K=3, fptrap=1)]
